@@ -61,6 +61,11 @@ func runC05(r *an.Run) {
 	if m := buildRunModel(r); m != nil {
 		c07WrittenFileStartsEmpty(r, m)
 		relabel(r, "R4-the-written-file-holds-exactly-the-validated-bytes", "R11-the-written-file-holds-only-the-printed-tree")
+		// … and what is emitted in any mode is what go/format printed and imports.Process (FormatOnly) returned,
+		// or the checked printer output itself: no text-level pass of gopatch's own (tidying, re-terminating
+		// lines) runs over the whole file afterwards — such a pass also rewrites code no change touched
+		c07ValidateBeforeEmit(r, m)
+		relabel(r, "R1-validate-before-emit", "R11-the-written-file-holds-only-the-printed-tree")
 	}
 	// the bytes kept for a file (its source, its printed result) are that file's: not a window into a buffer
 	// that is rewound and filled again for the next file
